@@ -162,14 +162,24 @@ Proof. reflexivity. Qed.
 Lemma rd_bool_b2n x r : rd_bool (b2n x :: r) = Some (x, r).
 Proof. rewrite rd_bool_cons. destruct x; reflexivity. Qed.
 
-Lemma rd_str_enc (s r : bytes) : nlen s <= 65535 -> rd_str (enc_str s ++ r) = Some (s, r).
+Lemma cut_str_len (s : bytes) : nlen (cut_str s) < 65536.
 Proof.
-  intros H.
-  assert (E : (if nlen s <? c02_short_string_max then s else firstn (N.to_nat c02_short_string_max) s) = s).
-  { change c02_short_string_max with 65535.
-    destruct (N.ltb_spec (nlen s) 65535) as [L|L]; [reflexivity|]. apply firstn_all2. unfold nlen in *. lia. }
-  unfold rd_str, enc_str. cbv zeta.
-  rewrite E. rewrite <- app_assoc. rewrite rdn_be by (cbn; lia). cbn [bind]. apply take_n_app.
+  unfold cut_str. change c02_short_string_max with 65535.
+  destruct (N.ltb_spec (nlen s) 65535) as [L|L]; [lia|].
+  unfold nlen in *. rewrite firstn_length. lia.
+Qed.
+
+Lemma cut_str_short (s : bytes) : nlen s <= 65535 -> cut_str s = s.
+Proof.
+  intros H. unfold cut_str. change c02_short_string_max with 65535.
+  destruct (N.ltb_spec (nlen s) 65535) as [L|L]; [reflexivity|]. apply firstn_all2. unfold nlen in *. lia.
+Qed.
+
+(* a string of any length reads back cut to 65535 bytes *)
+Lemma rd_str_enc (s r : bytes) : rd_str (enc_str s ++ r) = Some (cut_str s, r).
+Proof.
+  unfold rd_str, enc_str. rewrite <- app_assoc.
+  rewrite rdn_be by (pose proof (cut_str_len s); cbn; lia). cbn [bind]. apply take_n_app.
 Qed.
 
 Lemma rep_enc {A B} (p : parser B) (enc : A -> bytes) (g : A -> B) (xs : list A) r :
@@ -276,8 +286,8 @@ Lemma wf_null_row s : s_qname s 0 = true -> wf_row s null_row.
 Proof. intros H. repeat split; cbn; auto; lia. Qed.
 
 (* events the builders can produce, in terms of a schema: ids known to the application and inside
-   their Go integer types, at most 65535 children / CUD rows / emptied fields, an event that is
-   not valid carries only its error record *)
+   their Go integer types, at most 65535 children / CUD rows / emptied fields; nothing is asked of
+   the argument objects and CUD rows of an event that is not valid, nor of the length of its error text *)
 Definition wf_event (s : schema) (e : event) : Prop :=
   e_qid e < 65536 /\ e_qid e <> 0 /\ s_qname s (e_qid e) = true /\ s_qname s 0 = true /\
   e_part e < 65536 /\ e_poffs e < 2 ^ 64 /\ e_ws e < 2 ^ 64 /\ e_woffs e < 2 ^ 64 /\ e_reg e < 2 ^ 64 /\
@@ -288,15 +298,14 @@ Definition wf_event (s : schema) (e : event) : Prop :=
      nlen (e_creates e) < 65536 /\ Forall (wf_cud s) (e_creates e) /\
      nlen (e_updates e) < 65536 /\ Forall (wf_cud s) (e_updates e)
    else
-     e_valid e = false /\ nlen (e_errstr e) <= 65535 /\ nlen (e_errname e) <= 65535 /\ s_name s (e_errname e) = true /\
-     nlen (e_errbytes e) < 2 ^ 32 /\ e_arg e = null_obj /\ e_unl e = null_obj /\ e_creates e = [] /\ e_updates e = []).
+     e_valid e = false /\ s_name s (cut_str (e_errname e)) = true /\ nlen (e_errbytes e) < 2 ^ 32).
 
 Lemma dec_error_enc s (es en bs rest : bytes) :
-  nlen es <= 65535 -> nlen en <= 65535 -> s_name s en = true -> nlen bs < 2 ^ 32 ->
-  dec_error s (enc_str es ++ enc_str en ++ be 4 (nlen bs) ++ bs ++ rest) = Some ((es, en, bs), rest).
+  s_name s (cut_str en) = true -> nlen bs < 2 ^ 32 ->
+  dec_error s (enc_str es ++ enc_str en ++ be 4 (nlen bs) ++ bs ++ rest) = Some ((cut_str es, cut_str en, bs), rest).
 Proof.
-  intros H1 H2 H3 H4. unfold dec_error.
-  rewrite rd_str_enc by assumption. cbn [bind]. rewrite rd_str_enc by assumption. cbn [bind].
+  intros H3 H4. unfold dec_error.
+  rewrite rd_str_enc. cbn [bind]. rewrite rd_str_enc. cbn [bind].
   rewrite H3. cbn [negb]. rd_step. rewrite take_n_app. reflexivity.
 Qed.
 
@@ -307,10 +316,10 @@ Proof.
 Qed.
 
 Theorem dec_event_enc s e rest f :
-  wf_event s e -> (depth (e_arg e) <= f)%nat -> (depth (e_unl e) <= f)%nat ->
+  wf_event s e -> (stored_valid e = true -> (depth (e_arg e) <= f)%nat /\ (depth (e_unl e) <= f)%nat) ->
   dec_event s f (enc_event e ++ rest) = Some (stored_form e, rest).
 Proof.
-  intros (Hq & Hq0 & Hk & Hk0 & Hp & Hpo & Hws & Hwo & Hreg & Hsync & Hbody) Hd1 Hd2.
+  intros (Hq & Hq0 & Hk & Hk0 & Hp & Hpo & Hws & Hwo & Hreg & Hsync & Hbody) Hdep.
   unfold dec_event, enc_event, stored_form.
   destruct e as [q part poffs ws woffs reg sync dev syncat valid es en bs arg unl cs us].
   cbn [e_qid e_part e_poffs e_ws e_woffs e_reg e_sync e_dev e_syncat e_valid e_errstr e_errname e_errbytes e_arg e_unl e_creates e_updates] in *.
@@ -329,7 +338,8 @@ Proof.
   cbn [app]. rewrite rd_bool_b2n. cbn [bind].
   unfold stored_valid in *. cbn [e_valid e_qid] in *.
   destruct (valid && negb (q =? c02_qid_corrupted)) eqn:SV.
-  - apply andb_prop in SV. destruct SV as [Ev Ec]. subst valid. apply negb_true_iff in Ec.
+  - destruct (Hdep eq_refl) as [Hd1 Hd2].
+    apply andb_prop in SV. destruct SV as [Ev Ec]. subst valid. apply negb_true_iff in Ec.
     destruct Hbody as (_ & -> & -> & -> & Wa & Wu & Lc & Wc & Lu & Wu').
     cbn [bind]. rewrite Ec. cbn [negb orb].
     rewrite <- ?app_assoc.
@@ -338,8 +348,9 @@ Proof.
     rd_step. unfold nlen at 1. rewrite Nat2N.id. rewrite dec_cuds_enc by assumption. cbn [bind].
     rd_step. unfold nlen at 1. rewrite Nat2N.id. rewrite dec_cuds_enc by assumption. cbn [bind].
     reflexivity.
-  - destruct Hbody as (-> & Les & Len & Sn & Lbs & -> & -> & -> & ->).
-    cbn [andb] in SV. cbn [root null_obj r_qid null_row N.eqb].
+  - destruct Hbody as (-> & Sn & Lbs).
+    cbn [andb] in SV.
+    assert (Lb : nlen (if r_qid (root unl) =? 0 then bs else []) < 2 ^ 32) by (destruct (r_qid (root unl) =? 0); [exact Lbs|reflexivity]).
     rewrite <- ?app_assoc. rewrite dec_error_enc by assumption. cbn [bind negb orb].
     rewrite orb_true_r. reflexivity.
 Qed.
@@ -358,20 +369,21 @@ Proof.
     lia.
 Qed.
 
+Lemma depth_bound s e : wf_event s e ->
+  stored_valid e = true -> (depth (e_arg e) <= length (enc_event e))%nat /\ (depth (e_unl e) <= length (enc_event e))%nat.
+Proof.
+  intros W SV. destruct W as (_ & _ & _ & Hk0 & _ & _ & _ & _ & _ & _ & Hbody). unfold enc_event.
+  rewrite SV in *. destruct Hbody as (_ & _ & _ & _ & Wa & Wu & _).
+  pose proof (depth_le_enc s _ Wa). pose proof (depth_le_enc s _ Wu).
+  rewrite !app_length. lia.
+Qed.
+
 (* decode (encode e) = the stored form of e, for every well-formed event *)
 Theorem decode_encode_proved s e : wf_event s e -> decode s (enc_event e) = Some (stored_form e).
 Proof.
   intros W. unfold decode.
-  assert (D : (depth (e_arg e) <= length (enc_event e))%nat /\ (depth (e_unl e) <= length (enc_event e))%nat).
-  { destruct W as (_ & _ & _ & Hk0 & _ & _ & _ & _ & _ & _ & Hbody). unfold enc_event.
-    destruct (stored_valid e).
-    - destruct Hbody as (_ & _ & _ & _ & Wa & Wu & _).
-      pose proof (depth_le_enc s _ Wa). pose proof (depth_le_enc s _ Wu).
-      rewrite !app_length. lia.
-    - destruct Hbody as (_ & _ & _ & _ & _ & -> & -> & _). cbn [depth null_obj fold_right]. rewrite !app_length. cbn [length]. lia. }
-  destruct D as [D1 D2].
   rewrite <- (app_nil_r (enc_event e)) at 2.
-  rewrite (dec_event_enc s e [] _ W D1 D2). reflexivity.
+  rewrite (dec_event_enc s e [] _ W (depth_bound s e W)). reflexivity.
 Qed.
 
 (* every proper prefix of an encoding is rejected *)
@@ -383,20 +395,18 @@ Proof.
   pose proof (dec_event_ext s _ _ Hf _ _ _ ext D) as D'. rewrite <- E in D'.
   pose proof (decode_encode_proved s e W) as R. unfold decode in R. rewrite D' in R.
   assert (D0 := D').
-  assert (Dd : (depth (e_arg e) <= length (enc_event e))%nat /\ (depth (e_unl e) <= length (enc_event e))%nat).
-  { destruct W as (_ & _ & _ & Hk0 & _ & _ & _ & _ & _ & _ & Hbody). unfold enc_event.
-    destruct (stored_valid e).
-    - destruct Hbody as (_ & _ & _ & _ & Wa & Wu & _).
-      pose proof (depth_le_enc s _ Wa). pose proof (depth_le_enc s _ Wu).
-      rewrite !app_length. lia.
-    - destruct Hbody as (_ & _ & _ & _ & _ & -> & -> & _). cbn [depth null_obj fold_right]. rewrite !app_length. cbn [length]. lia. }
-  destruct Dd as [D1 D2].
-  pose proof (dec_event_enc s e [] _ W D1 D2) as X. rewrite app_nil_r in X. rewrite X in D0.
+  pose proof (dec_event_enc s e [] _ W (depth_bound s e W)) as X. rewrite app_nil_r in X. rewrite X in D0.
   inversion D0 as [[He Hr]]. symmetry in Hr. apply app_eq_nil in Hr. destruct Hr as [_ Hx]. contradiction.
 Qed.
 
 Definition no_actmod (e : event) : Prop :=
   Forall (fun c => c_actmod c = false) (e_creates e) /\ Forall (fun c => c_actmod c = false) (e_updates e).
+
+(* an event that is not valid is just its error record, with texts that fit a short string *)
+Definition bare_error (e : event) : Prop :=
+  stored_valid e = false ->
+  nlen (e_errstr e) <= 65535 /\ nlen (e_errname e) <= 65535 /\
+  e_arg e = null_obj /\ e_unl e = null_obj /\ e_creates e = [] /\ e_updates e = [].
 
 Lemma clear_id (cs : list cud) : Forall (fun c => c_actmod c = false) cs -> map clear_cud cs = cs.
 Proof.
@@ -404,10 +414,14 @@ Proof.
   destruct c as [r es a]. cbn in Hc. subst a. reflexivity.
 Qed.
 
-Theorem codec_roundtrip_partial_proved s e : wf_event s e -> no_actmod e -> decode s (enc_event e) = Some e.
+Theorem codec_roundtrip_partial_proved s e : wf_event s e -> no_actmod e -> bare_error e -> decode s (enc_event e) = Some e.
 Proof.
-  intros W [H1 H2]. rewrite (decode_encode_proved s e W). unfold stored_form.
-  rewrite (clear_id _ H1), (clear_id _ H2). destruct e; reflexivity.
+  intros W [H1 H2] B. rewrite (decode_encode_proved s e W). unfold stored_form.
+  destruct (stored_valid e) eqn:SV.
+  - rewrite (clear_id _ H1), (clear_id _ H2). destruct e; reflexivity.
+  - destruct (B SV) as (L1 & L2 & Ea & Eu & Ec & Eup).
+    rewrite (cut_str_short _ L1), (cut_str_short _ L2). rewrite Eu. cbn [root null_obj r_qid null_row N.eqb].
+    destruct e; cbn in *; subst; reflexivity.
 Qed.
 
 Lemma wf_null_obj s : s_qname s 0 = true -> wf_obj s null_obj.
@@ -440,4 +454,38 @@ Theorem codec_roundtrip_refuted_proved : exists s e, wf_event s e /\ decode s (e
 Proof.
   exists sch_any, actmod_witness. split; [exact actmod_witness_wf|].
   rewrite (decode_encode_proved _ _ actmod_witness_wf). vm_compute. congruence.
+Qed.
+
+(* an event that is not valid but still carries the builder's argument object: not stored (C02-F4) *)
+Definition error_args_witness : event :=
+  mkEvent 1 1 5 7 9 1000 false 0 0 false [120] [116; 46; 99] [] (Obj (mkRow 301 1 0 0 true [1; 2]) []) null_obj [] [].
+
+(* an error text of 65536 bytes: cut to 65535 (C02-F6) *)
+Definition long_error_witness : event :=
+  mkEvent 1 1 5 7 9 1000 false 0 0 false (repeat 97 (N.to_nat 65536)) [116; 46; 99] [] null_obj null_obj [] [].
+
+Lemma error_witness_wf es arg : wf_event sch_any (mkEvent 1 1 5 7 9 1000 false 0 0 false es [116; 46; 99] [] arg null_obj [] []).
+Proof.
+  unfold wf_event.
+  cbn [e_qid e_part e_poffs e_ws e_woffs e_reg e_sync e_dev e_syncat e_valid e_errstr e_errname e_errbytes e_arg e_unl e_creates e_updates stored_valid andb].
+  split; [lia|]. split; [lia|]. split; [reflexivity|]. split; [reflexivity|].
+  do 5 (split; [lia|]). split; [split; reflexivity|].
+  split; [reflexivity|]. split; reflexivity.
+Qed.
+
+Theorem error_args_refuted_proved :
+  exists s e, wf_event s e /\ no_actmod e /\ decode s (enc_event e) <> Some e.
+Proof.
+  exists sch_any, error_args_witness. split; [apply error_witness_wf|]. split; [split; constructor|].
+  unfold error_args_witness. rewrite (decode_encode_proved _ _ (error_witness_wf _ _)). vm_compute. congruence.
+Qed.
+
+Theorem long_error_refuted_proved :
+  exists s e, wf_event s e /\ no_actmod e /\ e_arg e = null_obj /\ e_creates e = [] /\ decode s (enc_event e) <> Some e.
+Proof.
+  exists sch_any, long_error_witness. split; [apply error_witness_wf|]. split; [split; constructor|].
+  split; [reflexivity|]. split; [reflexivity|].
+  unfold long_error_witness. rewrite (decode_encode_proved _ _ (error_witness_wf _ _)).
+  intros H. apply (f_equal (fun o => match o with Some x => nlen (e_errstr x) | None => 0 end)) in H.
+  vm_compute in H. discriminate.
 Qed.
